@@ -270,6 +270,7 @@ class IntervalRound(Contract):
     prop = "C16"
     target = U + "Interval.__round__"
     describe = "rounding gives [round(a), round(b)] with start <= end"
+    options = {"round_monotone": True}
 
     def build(self, F):
         a, b, I = _interval(F, float)
